@@ -1,0 +1,52 @@
+//go:build verif
+
+package radius
+
+// Verification hooks for property C08 (accounting reliability across outages
+// and crashes).  Add-only, compiled only with `-tags verif`; nothing here
+// changes the behaviour of the package.
+//
+// The crash-point marker calls themselves (`verifCrashPoint(site, sessionID)`
+// inside accounting.go) are added by a separate hook patch together with a
+// no-op stub for builds without the tag; VerifMarkersCompiledIn reports
+// whether that patch is present in the tree being tested.
+
+import (
+	"sync/atomic"
+)
+
+var (
+	verifCrashHook         atomic.Pointer[func(site, sessionID string)]
+	verifMarkersCompiledIn bool // set to true by verif_c08_markers.go (part of the marker patch)
+)
+
+// VerifMarkersCompiledIn reports whether accounting.go carries the
+// verifCrashPoint marker calls.
+func VerifMarkersCompiledIn() bool { return verifMarkersCompiledIn }
+
+// VerifSetCrashHook installs (or, with nil, removes) the function called at
+// every crash-point marker.  The hook runs on the goroutine that reached the
+// marker and may end it with runtime.Goexit to simulate a process crash.
+func VerifSetCrashHook(f func(site, sessionID string)) {
+	if f == nil {
+		verifCrashHook.Store(nil)
+		return
+	}
+	verifCrashHook.Store(&f)
+}
+
+// verifCrashPoint is the marker called from accounting.go.
+func verifCrashPoint(site, sessionID string) {
+	if f := verifCrashHook.Load(); f != nil {
+		(*f)(site, sessionID)
+	}
+}
+
+// VerifKill stops the manager's workers the way a process crash would: no
+// drain, no persistence of the in-memory retry queue.  It waits for the
+// workers to exit so that nothing of this instance keeps running.
+func (am *AccountingManager) VerifKill() {
+	atomic.StoreInt32(&am.running, 0)
+	am.cancel()
+	am.wg.Wait()
+}
